@@ -19,6 +19,8 @@ mod searchchk;
 mod seefam;
 mod session;
 mod sweep;
+mod ucichk;
+mod ucidrv;
 mod util;
 mod checks;
 
